@@ -1053,6 +1053,8 @@ def xexpr_xml(e):
     if e[0] == 'diffn':
         return ('<apply><diff/><bvar><ci>%s</ci><degree><cn cellml:units="dimensionless">%d</cn></degree></bvar>'
                 '<ci>%s</ci></apply>' % (_esc(e[2]), e[3], _esc(e[1])))
+    if e[0] == 'diffx':     # first derivative of an EXPRESSION (not of a variable): ['diffx', expr, t]
+        return '<apply><diff/><bvar><ci>%s</ci></bvar>%s</apply>' % (_esc(e[2]), expr_xml(e[1]))
     return expr_xml(e)
 
 
@@ -1198,6 +1200,9 @@ def _expr_walk(e, idents, units):
         idents.append(e[1])
     elif op in ('diff', 'diffn'):
         idents.extend([e[1], e[2]])
+    elif op == 'diffx':
+        idents.append(e[2])
+        _expr_walk(e[1], idents, units)
     else:
         for a in e[1:]:
             if isinstance(a, list):
@@ -1452,6 +1457,7 @@ def fault_sites(doc):
                 out += [('nonvar-lhs', [ci, at, k]) for k in ('sum', 'number', 'neg')]
             if len(c['variables']) >= 2:
                 out += [('higher-order-lhs', [ci, at, n]) for n in (2, 3)]
+                out += [('nonvar-lhs', [ci, at, k]) for k in ('dsum', 'dscaled', 'dtwo')]
         for vi, v in enumerate(c['variables']):
             out.append(('undefined-unit', ['var', ci, vi]))
             out.append(('duplicate-variable', [ci, vi]))
@@ -1597,6 +1603,13 @@ def inject(doc, kind, site, rng):
                 lhs = ['diffn', x['name'], t['name'], site[2]]
             elif site[2] == 'sum':
                 lhs = ['+', ['var', x['name']], ['num', '1', x['units']]]
+            elif site[2] in ('dsum', 'dscaled', 'dtwo'):
+                # the derivative of an expression: d(x + 1)/dt, d(2 x)/dt, d(x + y)/dt
+                t = rng.choice([v for v in vs if v is not x])
+                inner = {'dsum': ['+', ['var', x['name']], ['num', '1', x['units']]],
+                         'dscaled': ['*', ['num', '2', 'dimensionless'], ['var', x['name']]],
+                         'dtwo': ['+', ['var', x['name']], ['var', t['name']]]}[site[2]]
+                lhs = ['diffx', inner, t['name']]
             elif site[2] == 'number':
                 lhs, rhs = ['num', '3', x['units']], ['var', x['name']]
             else:
